@@ -411,6 +411,9 @@ func runRoundScenarios(c *ctx, t *hx.Trace, abs hx.Abs, newEnv func(string, map[
 		step("migration with invalid outer signature", func(o string) replySpec {
 			return replySpec{mig: true, newGCA: "gca2", newID: 900, outer: "gca2", servers: []hx.RawServer{r.entry("n1", false, 1, "gca2")}}
 		})
+		step("migration with a blank outer signature", func(o string) replySpec {
+			return replySpec{mig: true, newGCA: "gca2", newID: 900, outer: "", servers: []hx.RawServer{r.entry("n1", false, 1, "gca2")}}
+		})
 		step("migration with invalid inner signature", func(o string) replySpec {
 			return replySpec{mig: true, newGCA: "gca2", newID: 900, outer: "gca", servers: []hx.RawServer{r.entry("n1", false, 1, "gca")}}
 		})
@@ -453,13 +456,13 @@ func runRoundScenarios(c *ctx, t *hx.Trace, abs hx.Abs, newEnv func(string, map[
 				sp := replySpec{servers: list}
 				if rng.Intn(3) == 0 {
 					// a migration order: any signer for the order and for each new server (the specification decides)
-					gs := []string{"gca", "gca2", "gca3", "x1"}
+					gs := []string{"gca", "gca2", "gca3", "x1", ""}
 					abs.KR.Gen("gca3")
 					var news []hx.RawServer
 					for e := 0; e < 1+rng.Intn(2); e++ {
 						news = append(news, r.entry([]string{"n1", "n2", "n3", "f1"}[rng.Intn(4)], rng.Intn(4) == 0, 1, gs[rng.Intn(3)]))
 					}
-					sp = replySpec{mig: true, newGCA: gs[rng.Intn(3)], newID: uint32(300 + rng.Intn(3)), outer: gs[rng.Intn(4)], servers: news}
+					sp = replySpec{mig: true, newGCA: gs[rng.Intn(3)], newID: uint32(300 + rng.Intn(3)), outer: gs[rng.Intn(5)], servers: news}
 					if rng.Intn(6) == 0 {
 						sp.migFor = "otherdev"
 					}
